@@ -24,6 +24,7 @@ def strpool(ctx):
         ctx.apalache(A, ["--cinit=ConstInit", "--init=IndInit", "--inv=InBounds", "--length=1"], note="IndInv => InBounds, also after one step")
         ctx.apalache("Input/apalache/StrPoolIndAsFound.tla", ["--cinit=ConstInit", "--init=IndInit", "--inv=IndInv", "--length=1"], expect_error=True,
                      note="self-test: clear() as found is refuted")
+        ctx.tlapm("Input/tlaps/StrPoolProof.tla", note="TLAPS: Spec => []InBounds for every page size, allocation size and number of pages (59 obligations)")
     exe = ctx.harness("strpool_drv", ["input/strpool_drv.cpp"])
     t = os.path.join(ctx.work, "strpool.ndjson")
     rc, out, err = ctx.run_harness(exe, (300, 10) if ctx.quick else (3000, 40), trace=t, timeout=300)
